@@ -20,7 +20,8 @@ ASSUMPTIONS = [
     'the numerical meaning and result dtype of each operator are NumPy\'s; the theorem is parametric in '
     'them; the harness applies the same NumPy operator eagerly (the property\'s own oracle)',
     'float `pow` is restricted to exponents {0,1,2} (NumPy SIMD pow is not bitwise reproducible across '
-    'array shapes); histories on which eager NumPy itself raises are discarded as out of domain',
+    'array shapes) and `rpow` is not applied to floating point readers, where a reader that became floating point through an '
+    'earlier operator (true division, float operand) counts as one; histories on which eager NumPy itself raises are discarded as out of domain',
 ]
 DTYPES = ['int16', 'int32', 'int64', 'uint8', 'float32', 'float64']
 BIN = {'add': lambda a, x: a + x, 'radd': lambda a, x: x + a, 'sub': lambda a, x: a - x,
@@ -274,6 +275,11 @@ def shrink(case):
         yield c
 
 
+def _goes_float(op, arg, argkind):
+    """does this scalar operator turn an integer-valued reader into a floating point one?"""
+    return op in ('truediv', 'rtruediv') or isinstance(arg, float) or 'float' in (argkind or '')
+
+
 def scalar_args(op, dtype, rng=None):
     isint = not dtype.startswith('float')
     if op in ('pow',):
@@ -317,6 +323,7 @@ def gen(tier, rng):
                 nch = 2 + (k % 3)
                 n = sum(parts)
                 steps, ok_chain, cur = [], True, 0
+                cur_float = dtype.startswith('float')
                 nch_cur = nch
                 for j, op in enumerate(chain):
                     if op == 'cols':
@@ -330,12 +337,15 @@ def gen(tier, rng):
                     elif op in UN:
                         steps.append({'k': 'derive', 'from': cur, 'op': op})
                     else:
-                        args = scalar_args(op, dtype)
+                        # the operand pool follows the CURRENT value type of the reader: float powers with
+                        # non-trivial exponents are not bit-reproducible across block sizes in NumPy
+                        args = scalar_args(op, 'float64' if cur_float else dtype)
                         if not args:
                             ok_chain = False
                             break
-                        steps.append({'k': 'derive', 'from': cur, 'op': op, 'arg': args[(k + j) % len(args)],
-                                      'argkind': ARGKINDS[(k // 3 + j) % len(ARGKINDS)]})
+                        arg, argkind = args[(k + j) % len(args)], ARGKINDS[(k // 3 + j) % len(ARGKINDS)]
+                        steps.append({'k': 'derive', 'from': cur, 'op': op, 'arg': arg, 'argkind': argkind})
+                        cur_float = cur_float or _goes_float(op, arg, argkind)
                     cur += 1
                     # re-evaluate the new reader AND every ancestor after each derivation
                     for rdr in range(cur + 1):
@@ -352,6 +362,7 @@ def gen(tier, rng):
         nch = rng.randrange(2, 5)
         n = sum(parts)
         widths = [nch]
+        isf = [dtype.startswith('float')]
         steps = []
         for _ in range(rng.randrange(2, 7 if q else 9)):
             src = rng.randrange(len(widths))
@@ -362,14 +373,16 @@ def gen(tier, rng):
                 w = len(np.arange(widths[src])[_pycols(c, 'py')])
                 if w == 0:
                     continue
-                steps.append({'k': 'cols', 'from': src, 'cols': c, 'colkind': rng.pick(['py', 'np'])}); widths.append(w)
+                steps.append({'k': 'cols', 'from': src, 'cols': c, 'colkind': rng.pick(['py', 'np'])}); widths.append(w); isf.append(isf[src])
             elif op in UN:
-                steps.append({'k': 'derive', 'from': src, 'op': op}); widths.append(widths[src])
+                steps.append({'k': 'derive', 'from': src, 'op': op}); widths.append(widths[src]); isf.append(isf[src])
             else:
-                args = scalar_args(op, dtype)
+                args = scalar_args(op, 'float64' if isf[src] else dtype)
                 if not args:
                     continue
-                steps.append({'k': 'derive', 'from': src, 'op': op, 'arg': rng.pick(args), 'argkind': rng.pick(ARGKINDS)}); widths.append(widths[src])
+                arg, argkind = rng.pick(args), rng.pick(ARGKINDS)
+                steps.append({'k': 'derive', 'from': src, 'op': op, 'arg': arg, 'argkind': argkind}); widths.append(widths[src])
+                isf.append(isf[src] or _goes_float(op, arg, argkind))
             for _ in range(rng.randrange(1, 4)):
                 rdr = rng.randrange(len(widths))
                 it = rng.pick(items_for(n, rng, 2, backend == 'cbin'))
